@@ -138,6 +138,7 @@ func cmdCheck(argv []string) int {
 		return 2
 	}
 	var knownHit []string
+	reported := map[string]bool{}
 	for _, rep := range failed {
 		isKnown := false
 		for _, kf := range known.Findings {
@@ -161,6 +162,10 @@ func cmdCheck(argv []string) int {
 			continue
 		}
 		violations++
+		if reported[baseOblName(rep.Name)] {
+			continue // one VIOLATION line per obligation; the other failing paths are listed in the evidence
+		}
+		reported[baseOblName(rep.Name)] = true
 		rr := tryReplay(*prop, rep, byName[rep.Name])
 		replay := writeReplay(*prop, rep, byName[rep.Name], rr)
 		suffix := ""
